@@ -11,6 +11,7 @@ pub fn explore<T>(
     f: impl FnMut() -> T,
     on_exec: impl FnMut(std::thread::Result<T>, &Trace) -> bool,
 ) -> ExploreStats {
+    vcore::run::pin_current_thread_once();
     let prev = vcore::run::IN_EXPLORER.with(|e| e.replace(true));
     let st = rayon::verif::explore(cfg, bound, max_executions, f, on_exec);
     vcore::run::IN_EXPLORER.with(|e| e.set(prev));
@@ -18,6 +19,7 @@ pub fn explore<T>(
 }
 
 pub fn run_scheduled<T>(cfg: &Config, prefix: &[u32], f: impl FnOnce() -> T) -> (std::thread::Result<T>, Trace) {
+    vcore::run::pin_current_thread_once();
     let prev = vcore::run::IN_EXPLORER.with(|e| e.replace(true));
     let r = rayon::verif::run_scheduled(cfg, prefix, f);
     vcore::run::IN_EXPLORER.with(|e| e.set(prev));
